@@ -1,0 +1,270 @@
+//go:build verif
+
+package gohlslib
+
+import (
+	"context"
+	"net/url"
+	"sort"
+	"time"
+
+	"github.com/bluenviron/gohlslib/v2/pkg/playlist"
+)
+
+// This file exists only in builds with the "verif" tag. It exposes unexported pure
+// functions and read-only views of internal state to the verification harness in /verif.
+// It adds no behaviour to the package.
+
+// VerifConsts returns named constants used by the models.
+func VerifConsts() map[string]int64 {
+	return map[string]int64{
+		"fmp4StartDTS":                 int64(fmp4StartDTS),
+		"mpegtsSegmentMinAUCount":      mpegtsSegmentMinAUCount,
+		"clientMaxTracksPerStream":     clientMaxTracksPerStream,
+		"clientMPEGTSSampleQueueSize":  clientMPEGTSSampleQueueSize,
+		"clientLiveInitialDistance":    clientLiveInitialDistance,
+		"clientLiveMaxDistanceFromEnd": clientLiveMaxDistanceFromEnd,
+		"clientMaxDTSRTCDiff":          int64(clientMaxDTSRTCDiff),
+	}
+}
+
+// VerifMultiplyAndDivide exposes multiplyAndDivide.
+func VerifMultiplyAndDivide(v, m, d int64) int64 { return multiplyAndDivide(v, m, d) }
+
+// VerifDurationToTimestamp exposes durationToTimestamp.
+func VerifDurationToTimestamp(d time.Duration, clockRate int) int64 {
+	return durationToTimestamp(d, clockRate)
+}
+
+// VerifTimestampToDuration exposes timestampToDuration.
+func VerifTimestampToDuration(d int64, clockRate int) time.Duration {
+	return timestampToDuration(d, clockRate)
+}
+
+// VerifPartDurationIsCompatible exposes partDurationIsCompatible.
+func VerifPartDurationIsCompatible(partDuration, sampleDuration time.Duration) bool {
+	return partDurationIsCompatible(partDuration, sampleDuration)
+}
+
+// VerifFindCompatiblePartDuration exposes findCompatiblePartDuration.
+func VerifFindCompatiblePartDuration(minPartDuration time.Duration, sampleDurations []time.Duration) time.Duration {
+	m := make(map[time.Duration]struct{})
+	for _, d := range sampleDurations {
+		m[d] = struct{}{}
+	}
+	return findCompatiblePartDuration(minPartDuration, m)
+}
+
+// VerifFindSegmentWithID exposes findSegmentWithID (found, index, inverse position).
+func VerifFindSegmentWithID(seqNo int, segments []*playlist.MediaSegment, id int) (bool, int, int) {
+	seg, idx, inv := findSegmentWithID(seqNo, segments, id)
+	return seg != nil, idx, inv
+}
+
+// VerifFindSegmentWithInvPosition exposes findSegmentWithInvPosition (found, index).
+func VerifFindSegmentWithInvPosition(segments []*playlist.MediaSegment, invPos int) (bool, int) {
+	seg, idx := findSegmentWithInvPosition(segments, invPos)
+	return seg != nil, idx
+}
+
+// VerifCheckSupport exposes checkSupport.
+func VerifCheckSupport(codecs []string) bool { return checkSupport(codecs) }
+
+// VerifPickLeadingPlaylist exposes pickLeadingPlaylist (index of the chosen variant, -1 if none).
+func VerifPickLeadingPlaylist(variants []*playlist.MultivariantVariant) int {
+	v := pickLeadingPlaylist(variants)
+	for i, x := range variants {
+		if x == v {
+			return i
+		}
+	}
+	return -1
+}
+
+// VerifFilterOutHLSParams exposes filterOutHLSParams.
+func VerifFilterOutHLSParams(rawQuery string) string { return filterOutHLSParams(rawQuery) }
+
+// VerifParseMSNPart exposes parseMSNPart.
+func VerifParseMSNPart(msn, part string) (uint64, uint64, error) { return parseMSNPart(msn, part) }
+
+// VerifClientAbsoluteURL exposes clientAbsoluteURL.
+func VerifClientAbsoluteURL(base *url.URL, relative string) (*url.URL, error) {
+	return clientAbsoluteURL(base, relative)
+}
+
+// VerifDateTimeOfPreloadHint exposes dateTimeOfPreloadHint.
+func VerifDateTimeOfPreloadHint(pl *playlist.Media) *time.Time { return dateTimeOfPreloadHint(pl) }
+
+// VerifFMP4Convert evaluates clientTimeConvFMP4.convert.
+func VerifFMP4Convert(leadingTimeScale, leadingBaseTime, v int64, clockRate int) int64 {
+	ts := &clientTimeConvFMP4{leadingTimeScale: leadingTimeScale, leadingBaseTime: leadingBaseTime}
+	return ts.convert(v, clockRate)
+}
+
+// VerifFMP4GetNTP evaluates clientTimeConvFMP4.setNTP followed by getNTP.
+func VerifFMP4GetNTP(ntpValue time.Time, ntpTimestamp int64, ntpClockRate int, timestamp int64, clockRate int) time.Time {
+	ts := &clientTimeConvFMP4{}
+	ts.initialize()
+	ts.setNTP(ntpValue, ntpTimestamp, ntpClockRate)
+	ts.setLeadingNTPReceived()
+	return *ts.getNTP(context.Background(), timestamp, clockRate)
+}
+
+// VerifMPEGTSConv wraps a clientTimeConvMPEGTS.
+type VerifMPEGTSConv struct{ ts *clientTimeConvMPEGTS }
+
+// NewVerifMPEGTSConv allocates a clientTimeConvMPEGTS with the given start DTS.
+func NewVerifMPEGTSConv(startDTS int64) *VerifMPEGTSConv {
+	ts := &clientTimeConvMPEGTS{startDTS: startDTS}
+	ts.initialize()
+	return &VerifMPEGTSConv{ts: ts}
+}
+
+// Convert calls convert.
+func (c *VerifMPEGTSConv) Convert(v int64) int64 { return c.ts.convert(v) }
+
+// GetNTP calls setNTP, setLeadingNTPReceived, getNTP.
+func (c *VerifMPEGTSConv) GetNTP(ntpValue time.Time, ntpTimestamp int64, timestamp int64) time.Time {
+	c.ts.setNTP(ntpValue, ntpTimestamp)
+	c.ts.setLeadingNTPReceived()
+	return *c.ts.getNTP(context.Background(), timestamp)
+}
+
+// VerifQueue wraps a clientSegmentQueue.
+type VerifQueue struct{ q clientSegmentQueue }
+
+// NewVerifQueue allocates an initialized clientSegmentQueue.
+func NewVerifQueue() *VerifQueue {
+	v := &VerifQueue{}
+	v.q.initialize()
+	return v
+}
+
+// Push pushes a segment (nil payload = the end-of-stream sentinel).
+func (v *VerifQueue) Push(payload []byte) {
+	if payload == nil {
+		v.q.push(nil)
+		return
+	}
+	v.q.push(&segmentData{payload: payload})
+}
+
+// Pull pulls a segment; sentinel reports the nil entry.
+func (v *VerifQueue) Pull(ctx context.Context) (payload []byte, sentinel bool, ok bool) {
+	seg, ok := v.q.pull(ctx)
+	if !ok {
+		return nil, false, false
+	}
+	if seg == nil {
+		return nil, true, true
+	}
+	return seg.payload, false, true
+}
+
+// WaitUntilSizeIsBelow calls waitUntilSizeIsBelow.
+func (v *VerifQueue) WaitUntilSizeIsBelow(ctx context.Context, n int) bool {
+	return v.q.waitUntilSizeIsBelow(ctx, n)
+}
+
+// Len returns the current queue length.
+func (v *VerifQueue) Len() int {
+	v.q.mutex.Lock()
+	defer v.q.mutex.Unlock()
+	return len(v.q.queue)
+}
+
+// VerifStreamState is a read-only view of a muxerStream.
+type VerifStreamState struct {
+	ID                 string
+	IsLeading          bool
+	IsRendition        bool
+	IsDefault          bool
+	Name               string
+	Language           string
+	NextSegmentID      uint64
+	NextPartID         uint64
+	SegmentDeleteCount int
+	SegmentCount       int // len(segments)
+	Gaps               int
+	TargetDuration     int
+	PartTargetDuration time.Duration
+	Closed             bool
+	InitFilePresent    bool
+	HasNextSegment     bool
+	NextSegmentParts   int
+	SegmentSizes       []uint64
+	SegmentDurations   []time.Duration
+}
+
+// VerifMuxerState is a read-only view of a Muxer.
+type VerifMuxerState struct {
+	Streams                    []VerifStreamState
+	Paths                      []string
+	Prefix                     string
+	Closed                     bool
+	PendingParamsChange        bool
+	AdjustedPartDuration       time.Duration
+	FreezeAdjustedPartDuration bool
+}
+
+// VerifSnapshot returns a read-only view of the muxer's state. It takes the muxer mutex.
+func VerifSnapshot(m *Muxer) VerifMuxerState {
+	m.mutex.Lock()
+	defer m.mutex.Unlock()
+
+	var st VerifMuxerState
+	st.Prefix = m.prefix
+	st.Closed = m.closed
+	st.PendingParamsChange = m.segmenter.pendingParamsChange
+	st.AdjustedPartDuration = m.segmenter.fmp4AdjustedPartDuration
+	st.FreezeAdjustedPartDuration = m.segmenter.fmp4FreezeAdjustedPartDuration
+
+	for _, s := range m.streams {
+		ss := VerifStreamState{
+			ID:                 s.id,
+			IsLeading:          s.isLeading,
+			IsRendition:        s.isRendition,
+			IsDefault:          s.isDefault,
+			Name:               s.name,
+			Language:           s.language,
+			NextSegmentID:      s.nextSegmentID,
+			NextPartID:         s.nextPartID,
+			SegmentDeleteCount: s.segmentDeleteCount,
+			SegmentCount:       len(s.segments),
+			TargetDuration:     s.targetDuration,
+			PartTargetDuration: s.partTargetDuration,
+			Closed:             s.closed,
+			InitFilePresent:    s.initFilePresent,
+			HasNextSegment:     s.nextSegment != nil,
+		}
+		for _, seg := range s.segments {
+			if _, ok := seg.(*muxerGap); ok {
+				ss.Gaps++
+			}
+			ss.SegmentSizes = append(ss.SegmentSizes, seg.getSize())
+			ss.SegmentDurations = append(ss.SegmentDurations, seg.getDuration())
+		}
+		if seg, ok := s.nextSegment.(*muxerSegmentFMP4); ok && seg != nil {
+			ss.NextSegmentParts = len(seg.parts)
+		}
+		st.Streams = append(st.Streams, ss)
+	}
+
+	m.server.mutex.RLock()
+	for k := range m.server.pathHandlers {
+		st.Paths = append(st.Paths, k)
+	}
+	m.server.mutex.RUnlock()
+	sort.Strings(st.Paths)
+
+	return st
+}
+
+// VerifMutexFree reports whether the muxer mutex can be acquired right now.
+func VerifMutexFree(m *Muxer) bool {
+	if m.mutex.TryLock() {
+		m.mutex.Unlock()
+		return true
+	}
+	return false
+}
